@@ -670,6 +670,146 @@ theorem C08_failfast_nothing_after_error (ext : Ext) (b : VB) (hff : b.failFast 
   obtain ⟨_, h2, _⟩ := callStep_spec ext (vbEnd ext b (pre.map .call)) c
   exact (C08_failfast_chain ext post _ (by simp only [vbStep]; rw [h2, h1, hff]) (by simpa [vbStep] using herr)).1
 
+/-! ### CustomFunc / MustCustomFunc and chains of arbitrary binding ops (round 4) -/
+
+/-- **C08_custom_frozen** — in fail-fast mode with a recorded error the user function is not
+    invoked: its destination keeps its value and nothing is recorded -/
+theorem C08_custom_frozen (b : VB) (c : Custom) (hff : b.failFast = true) (he : b.errors ≠ 0) :
+    customStep b c = (b, c.init) := by
+  have hf : b.frozen = true := (frozen_iff b).2 ⟨hff, he⟩
+  simp [customStep, hf]
+
+/-- **C08_custom_spec** — otherwise: an absent parameter never invokes the function (`Must`
+    records exactly one error); a present one invokes it once and EVERY error it returns is
+    recorded -/
+theorem C08_custom_spec (b : VB) (c : Custom) (hf : b.frozen = false) :
+    (c.values = [] → customStep b c = ((if c.must then b.addErr else b), c.init))
+    ∧ (c.values ≠ [] → customStep b c = ({ b with errors := b.errors + c.errs }, c.result)) := by
+  constructor <;> intro h <;> simp [customStep, hf, h]
+
+theorem customStep_mono (b : VB) (c : Custom) :
+    b.errors ≤ (customStep b c).1.errors ∧ (customStep b c).1.failFast = b.failFast := by
+  unfold customStep
+  split
+  · exact ⟨Nat.le_refl _, rfl⟩
+  · split
+    · split <;> simp [VB.addErr]
+    · simp
+
+/-- ops that bind a parameter -/
+def Op.isBinding : Op → Bool
+  | .call _ => true
+  | .custom _ => true
+  | _ => false
+
+/-- what a binding op reports when it does nothing at all -/
+def Op.untouched : Op → Out
+  | .call c => .call c.init 0
+  | .custom c => .call c.init 0
+  | _ => .nothing
+
+theorem vbStep_binding_mono (ext : Ext) (b : VB) (o : Op) (ho : o.isBinding = true) :
+    b.errors ≤ (vbStep ext b o).1.errors ∧ (vbStep ext b o).1.failFast = b.failFast := by
+  cases o with
+  | call c => obtain ⟨h1, h2, _⟩ := callStep_spec ext b c; exact ⟨h1, h2⟩
+  | custom c => exact customStep_mono b c
+  | failFast v => simp [Op.isBinding] at ho
+  | bindError => simp [Op.isBinding] at ho
+  | bindErrors => simp [Op.isBinding] at ho
+
+theorem vbEnd_binding (ext : Ext) (ops : List Op) (ho : ∀ o ∈ ops, o.isBinding = true) :
+    ∀ b, (vbEnd ext b ops).failFast = b.failFast ∧ b.errors ≤ (vbEnd ext b ops).errors := by
+  induction ops with
+  | nil => intro b; simp [vbEnd]
+  | cons o os ih =>
+    intro b
+    obtain ⟨h1, h2⟩ := vbStep_binding_mono ext b o (ho o (by simp))
+    have := ih (fun x hx => ho x (List.mem_cons_of_mem _ hx)) (vbStep ext b o).1
+    simp only [vbEnd]
+    exact ⟨this.1.trans h2, Nat.le_trans h1 this.2⟩
+
+/-- **C08_failfast_chain_ops** — a frozen binder stays frozen through ANY sequence of binding
+    ops (typed calls, slice / delimiter calls, `Time(s)`, `CustomFunc`): nothing is written, no
+    user function is invoked, nothing is recorded -/
+theorem C08_failfast_chain_ops (ext : Ext) (ops : List Op) (ho : ∀ o ∈ ops, o.isBinding = true) :
+    ∀ b, b.failFast = true → b.errors ≠ 0 →
+      vbRun ext b ops = ops.map Op.untouched ∧ vbEnd ext b ops = b := by
+  induction ops with
+  | nil => intro b _ _; simp [vbRun, vbEnd]
+  | cons o os ih =>
+    intro b hff he
+    have ih' := ih (fun x hx => ho x (List.mem_cons_of_mem _ hx)) b hff he
+    cases o with
+    | call c =>
+      have hc := C08_failfast_frozen ext b c hff he
+      simp only [List.map_cons, vbRun, vbEnd, vbStep, hc, Nat.sub_self, Op.untouched]
+      simp [ih'.1, ih'.2]
+    | custom c =>
+      have hc := C08_custom_frozen b c hff he
+      simp only [List.map_cons, vbRun, vbEnd, vbStep, hc, Nat.sub_self, Op.untouched]
+      simp [ih'.1, ih'.2]
+    | failFast v => have := ho (.failFast v) (by simp); simp [Op.isBinding] at this
+    | bindError => have := ho .bindError (by simp); simp [Op.isBinding] at this
+    | bindErrors => have := ho .bindErrors (by simp); simp [Op.isBinding] at this
+
+/-- **nothing is written after the first error, for every kind of binding op** -/
+theorem C08_failfast_nothing_after_error_ops (ext : Ext) (b : VB) (hff : b.failFast = true)
+    (pre post : List Op) (o : Op) (hpre : ∀ x ∈ pre, x.isBinding = true) (ho : o.isBinding = true)
+    (hpost : ∀ x ∈ post, x.isBinding = true)
+    (herr : (vbStep ext (vbEnd ext b pre) o).1.errors ≠ 0) :
+    vbRun ext b (pre ++ o :: post)
+      = vbRun ext b pre ++ (vbStep ext (vbEnd ext b pre) o).2 :: post.map Op.untouched := by
+  rw [vbRun_append]
+  congr 1
+  simp only [vbRun]
+  congr 1
+  have h1 := (vbEnd_binding ext pre hpre b).1
+  have h2 := (vbStep_binding_mono ext (vbEnd ext b pre) o ho).2
+  exact (C08_failfast_chain_ops ext post hpost _ (by rw [h2, h1, hff]) herr).1
+
+/-! ### the loop of `durations` / `times` as written -/
+
+/-- `durations` and `times` do not call a per-element helper: their loop tests `b.failFast` alone,
+    and only in the error branch -/
+def errLoop (ext : Ext) (e : Elem) : VB → List (List Char) → VB × Option (List SVal)
+  | b, [] => (b, some [])
+  | b, v :: vs =>
+    match parseElem ext e v with
+    | some x =>
+      let r := errLoop ext e b vs
+      (r.1, r.2.map (x :: ·))
+    | none =>
+      let b1 := b.addErr
+      if b1.failFast then (b1, none)
+      else
+        let r := errLoop ext e b1 vs
+        (r.1, r.2.map (zeroOf e :: ·))
+
+/-- … which is the loop of the other slice methods whenever the method was entered at all
+    (its first statement returns if the binder is frozen) -/
+theorem C08_errLoop_eq (ext : Ext) (e : Elem) :
+    ∀ (vs : List (List Char)) (b : VB), b.frozen = false → errLoop ext e b vs = sliceLoop ext e b vs := by
+  intro vs
+  induction vs with
+  | nil => intro b _; rfl
+  | cons v vs ih =>
+    intro b hf
+    unfold errLoop sliceLoop
+    cases hp : parseElem ext e v with
+    | some x => simp only [hf, Bool.false_eq_true, if_false]; rw [ih b hf]
+    | none =>
+      simp only
+      have hfr : b.addErr.frozen = b.failFast := by
+        simp [VB.frozen, VB.addErr]
+      rw [hfr]
+      have : b.addErr.failFast = b.failFast := rfl
+      rw [this]
+      cases hff : b.failFast with
+      | true => simp
+      | false =>
+        simp only [Bool.false_eq_true, if_false]
+        rw [ih b.addErr (by rw [hfr, hff])]
+
 /-! ### empty text -/
 
 /-- **C08_empty (value binder)** — an empty or absent value is "absent": the destination is not
@@ -703,14 +843,43 @@ theorem C08_empty_struct (ext : Ext) (d : Dest) :
 /-! ## the struct binder -/
 
 /-- what a field must hold after a successful walk: its previous value if the source has no
-    key for it, else the conversion of its text(s) — whatever it held before -/
+    key for it, else the conversion of its text(s) — whatever it held before.  A multi-value
+    destination (`UnmarshalParams`) holds ALL values of its key. -/
 def fieldHolds (ext : Ext) (f : Field) (v : FVal) : Prop :=
   match f.values with
   | none => v = f.init
   | some vals =>
     match f.wrap with
     | .scalar | .ptr => ∃ x, v = .one x ∧ structElem ext f.elem (vals.headD []) = some x
+    | .multi | .ptrMulti => v = .many (vals.map .opq) ∧ ∀ s ∈ vals, s.head? ≠ some '!'
     | _ => ∃ xs, v = .many xs ∧ vals.map (structElem ext f.elem) = xs.map some
+
+theorem multiParse_some (vals : List (List Char)) (xs : List SVal) :
+    multiParse vals = some xs ↔ xs = vals.map .opq ∧ ∀ s ∈ vals, s.head? ≠ some '!' := by
+  unfold multiParse
+  by_cases h : vals.any (fun s => s.head? = some '!') = true
+  · simp only [h, if_true, reduceCtorEq, false_iff, not_and]
+    intro _ hall
+    obtain ⟨s, hs, hb⟩ := List.any_eq_true.mp h
+    exact hall s hs (by simpa using hb)
+  · simp only [h, Bool.false_eq_true, if_false, Option.some.injEq]
+    have : ∀ s ∈ vals, s.head? ≠ some '!' := by
+      intro s hs hb
+      exact h (List.any_eq_true.mpr ⟨s, hs, by simpa using hb⟩)
+    constructor
+    · intro e; exact ⟨e.symm, this⟩
+    · intro e; exact e.1.symm
+
+theorem multiParse_none (vals : List (List Char)) :
+    multiParse vals = none ↔ ∃ s ∈ vals, s.head? = some '!' := by
+  unfold multiParse
+  by_cases h : vals.any (fun s => s.head? = some '!') = true
+  · simp only [h, if_true, true_iff]
+    obtain ⟨s, hs, hb⟩ := List.any_eq_true.mp h
+    exact ⟨s, hs, by simpa using hb⟩
+  · simp only [h, Bool.false_eq_true, if_false, reduceCtorEq, false_iff, not_exists, not_and]
+    intro s hs hb
+    exact h (List.any_eq_true.mpr ⟨s, hs, by simpa using hb⟩)
 
 theorem structElems_spec (ext : Ext) (e : Elem) (ss : List (List Char)) :
     ∀ xs, structElems ext e ss = some xs ↔ ss.map (structElem ext e) = xs.map some := by
@@ -750,25 +919,27 @@ theorem bindField_ok (ext : Ext) (f : Field) (v : FVal) (h : bindField ext f = .
   cases hv : f.values with
   | none => simp only [hv] at h ⊢; cases h; rfl
   | some vals =>
-    cases vals with
-    | nil => simp [hv] at h
-    | cons v0 vs =>
-      simp only [hv] at h ⊢
-      cases hw : f.wrap <;> simp only [hw] at h ⊢
-      · split at h
-        · rename_i x hx; cases h; exact ⟨x, rfl, by simpa using hx⟩
-        · cases h
-      · split at h
-        · rename_i x hx; cases h; exact ⟨x, rfl, by simpa using hx⟩
-        · cases h
-      · split at h
-        · rename_i xs hx; cases h; exact ⟨xs, rfl, (structElems_spec ext _ _ xs).1 hx⟩
-        · cases h
-      · split at h
-        · rename_i xs hx; cases h; exact ⟨xs, rfl, (structElems_spec ext _ _ xs).1 hx⟩
-        · cases h
-      · split at h
-        · rename_i xs hx; cases h; exact ⟨xs, rfl, (structElems_spec ext _ _ xs).1 hx⟩
+    simp only [hv] at h ⊢
+    cases hw : f.wrap <;> simp only [hw] at h ⊢
+    case multi =>
+      split at h
+      · rename_i xs hx; cases h; exact (multiParse_some vals xs).1 hx |>.imp_left (fun e => by rw [e])
+      · cases h
+    case ptrMulti =>
+      split at h
+      · rename_i xs hx; cases h; exact (multiParse_some vals xs).1 hx |>.imp_left (fun e => by rw [e])
+      · cases h
+    all_goals
+      cases vals with
+      | nil => simp at h
+      | cons v0 vs =>
+        simp only at h
+        split at h
+        · rename_i x hx
+          cases h
+          first
+            | exact ⟨x, rfl, by simpa using hx⟩
+            | exact ⟨x, rfl, (structElems_spec ext _ _ x).1 hx⟩
         · cases h
 
 /-- a field fails iff the source has a key for it and one of the texts it converts is not convertible -/
@@ -778,6 +949,7 @@ def fieldBad (ext : Ext) (f : Field) : Prop :=
   | some vals =>
     match f.wrap with
     | .scalar | .ptr => structElem ext f.elem (vals.headD []) = none
+    | .multi | .ptrMulti => ∃ s ∈ vals, s.head? = some '!'
     | _ => ∃ s ∈ vals, structElem ext f.elem s = none
 
 theorem structElems_none (ext : Ext) (e : Elem) (ss : List (List Char)) :
@@ -793,35 +965,45 @@ theorem structElems_none (ext : Ext) (e : Elem) (ss : List (List Char)) :
       rw [← ih]
       cases structElems ext e ss <;> simp
 
-theorem bindField_cases (ext : Ext) (f : Field) (hne : f.values ≠ some []) :
+theorem bindField_cases (ext : Ext) (f : Field)
+    (hne : f.values = some [] → f.wrap = .multi ∨ f.wrap = .ptrMulti) :
     (fieldBad ext f ∧ ∃ v, bindField ext f = .err v) ∨ (¬ fieldBad ext f ∧ ∃ v, bindField ext f = .ok v) := by
   unfold bindField fieldBad
   cases hv : f.values with
   | none => simp
   | some vals =>
-    cases vals with
-    | nil => exact absurd hv hne
-    | cons v0 vs =>
-      simp only [List.headD_cons]
-      cases hw : f.wrap <;> simp only
-      · cases h : structElem ext f.elem v0 <;> simp
-      · cases h : structElem ext f.elem v0 <;> simp
-      · cases h : structElems ext f.elem (v0 :: vs) with
-        | none => exact Or.inl ⟨(structElems_none ext _ _).1 h, by simp⟩
+    simp only
+    cases hw : f.wrap <;> simp only
+    case multi =>
+      cases h : multiParse vals with
+      | none => exact Or.inl ⟨(multiParse_none vals).1 h, by simp⟩
+      | some xs =>
+        refine Or.inr ⟨?_, by simp⟩
+        intro hb
+        rw [(multiParse_none vals).2 hb] at h; cases h
+    case ptrMulti =>
+      cases h : multiParse vals with
+      | none => exact Or.inl ⟨(multiParse_none vals).1 h, by simp⟩
+      | some xs =>
+        refine Or.inr ⟨?_, by simp⟩
+        intro hb
+        rw [(multiParse_none vals).2 hb] at h; cases h
+    case scalar =>
+      cases vals with
+      | nil => have := hne hv; rw [hw] at this; simp at this
+      | cons v0 vs => simp only [List.headD_cons]; cases h : structElem ext f.elem v0 <;> simp
+    case ptr =>
+      cases vals with
+      | nil => have := hne hv; rw [hw] at this; simp at this
+      | cons v0 vs => simp only [List.headD_cons]; cases h : structElem ext f.elem v0 <;> simp
+    all_goals
+      cases vals with
+      | nil => have := hne hv; rw [hw] at this; simp at this
+      | cons v0 vs =>
+        cases h : structElems ext f.elem (v0 :: vs) with
+        | none => exact Or.inl ⟨(structElems_none ext _ _).1 h, by simp [h]⟩
         | some xs =>
-          refine Or.inr ⟨?_, by simp⟩
-          intro hb
-          rw [(structElems_none ext _ _).2 hb] at h; cases h
-      · cases h : structElems ext f.elem (v0 :: vs) with
-        | none => exact Or.inl ⟨(structElems_none ext _ _).1 h, by simp⟩
-        | some xs =>
-          refine Or.inr ⟨?_, by simp⟩
-          intro hb
-          rw [(structElems_none ext _ _).2 hb] at h; cases h
-      · cases h : structElems ext f.elem (v0 :: vs) with
-        | none => exact Or.inl ⟨(structElems_none ext _ _).1 h, by simp⟩
-        | some xs =>
-          refine Or.inr ⟨?_, by simp⟩
+          refine Or.inr ⟨?_, by simp [h]⟩
           intro hb
           rw [(structElems_none ext _ _).2 hb] at h; cases h
 
@@ -854,7 +1036,8 @@ theorem C08_struct_exact (ext : Ext) (fs : List Field) :
 
 /-- **struct binder, never silent** — the walk reports 400 iff some field's text is not
     convertible (given what net/http guarantees: no empty value lists), and it never panics -/
-theorem C08_struct_400 (ext : Ext) (fs : List Field) (hne : ∀ f ∈ fs, f.values ≠ some []) :
+theorem C08_struct_400 (ext : Ext) (fs : List Field)
+    (hne : ∀ f ∈ fs, f.values = some [] → f.wrap = .multi ∨ f.wrap = .ptrMulti) :
     ((structBind ext fs).1 = .bad ↔ ∃ f ∈ fs, fieldBad ext f)
     ∧ ((structBind ext fs).1 = .ok ↔ ∀ f ∈ fs, ¬ fieldBad ext f) := by
   induction fs with
@@ -873,9 +1056,11 @@ theorem C08_struct_400 (ext : Ext) (fs : List Field) (hne : ∀ f ∈ fs, f.valu
       exact ih'
 
 /-- **C08_no_panic** — the only partial operation on the binding path is `inputValue[0]`;
-    with the data net/http produces (every key has at least one value) it cannot fail.  The
-    value binder has no partial operation at all (`Out` has no panic outcome). -/
-theorem C08_no_panic (ext : Ext) (fs : List Field) (hne : ∀ f ∈ fs, f.values ≠ some []) :
+    with the data net/http produces (every key has at least one value) it cannot fail — and a
+    multi-value destination never reaches it, whatever the value list.  The value binder has no
+    partial operation at all (`Out` has no panic outcome). -/
+theorem C08_no_panic (ext : Ext) (fs : List Field)
+    (hne : ∀ f ∈ fs, f.values = some [] → f.wrap = .multi ∨ f.wrap = .ptrMulti) :
     (structBind ext fs).1 ≠ .panic := by
   have := C08_struct_400 ext fs hne
   intro hp
@@ -1006,5 +1191,53 @@ example : structBind noExt [⟨.scalar, .bool, .one (.bool true), some [[]]⟩,
 -- path param `verbose=true`, then query `verbose=` : the field ends up false
 example : structBind2 noExt [⟨.scalar, .bool, .one (.bool false), some [['t','r','u','e']]⟩] [some [[]]]
     = (.ok, [.one (.bool false)]) := by decide
+
+-- round 4 --------------------------------------------------------------------------------------
+
+/-- an external parser table: layout 0 parses `a` and `b`, nothing else -/
+def exExt : Ext := extOf [(100, ['a'], some ['1']), (100, ['b'], some ['2']), (100, ['x'], none)]
+
+def exTimeBad : Call := ⟨.time 0, .scalar, false, true, [['x']], [], .scalar (.opq ['0'])⟩
+def exTimeGood : Call := ⟨.time 0, .scalar, false, true, [['a']], [], .scalar (.opq ['0'])⟩
+def exTimes : Call := ⟨.time 0, .slice, true, true, [['a'], ['b']], [], .slice none⟩
+def exTimesBad : Call := ⟨.time 0, .slice, true, true, [['a'], ['x'], ['b']], [], .slice (some [.opq ['9']])⟩
+
+-- Time: a failing call leaves the destination, a good one stores what time.Parse returned
+example : callStep exExt ⟨0, true⟩ exTimeBad = (⟨1, true⟩, .scalar (.opq ['0'])) := by decide +kernel
+example : callStep exExt ⟨0, true⟩ exTimeGood = (⟨0, true⟩, .scalar (.opq ['1'])) := by decide +kernel
+-- Times: all or nothing; fail-fast stops at the first bad element, otherwise every bad one is counted
+example : callStep exExt ⟨0, true⟩ exTimes = (⟨0, true⟩, .slice (some [.opq ['1'], .opq ['2']])) := by decide +kernel
+example : callStep exExt ⟨0, true⟩ exTimesBad = (⟨1, true⟩, .slice (some [.opq ['9']])) := by decide +kernel
+example : callStep exExt ⟨0, false⟩ { exTimesBad with values := [['x'], ['a'], ['x']] }
+    = (⟨2, false⟩, .slice (some [.opq ['9']])) := by decide +kernel
+-- MustTimes without the parameter
+example : callStep exExt ⟨0, true⟩ { exTimes with values := [] } = (⟨1, true⟩, .slice none) := by decide +kernel
+
+/-- a user function that would store both values and return two errors -/
+def exCustom : Custom := ⟨false, [['p'], ['q']], .slice none, .slice (some [.opq ['p'], .opq ['q']]), 2⟩
+
+-- CustomFunc: invoked once, both errors recorded; after that (fail-fast) neither a typed call nor
+-- another CustomFunc does anything; BindErrors reports 2
+example : vbRun exExt ⟨0, true⟩ [.custom exCustom, .call exTimeGood, .custom exCustom, .bindErrors]
+    = [.call (.slice (some [.opq ['p'], .opq ['q']])) 2, .call (.scalar (.opq ['0'])) 0, .call (.slice none) 0, .errs 2] := by
+  decide +kernel
+-- absent parameter: not invoked; MustCustomFunc records one error
+example : customStep ⟨0, true⟩ { exCustom with values := [], must := true } = (⟨1, true⟩, .slice none) := by decide
+example : customStep ⟨0, true⟩ { exCustom with values := [] } = (⟨0, true⟩, .slice none) := by decide
+-- hypotheses of C08_failfast_nothing_after_error_ops hold for a chain with a CustomFunc in the middle
+example : (vbStep exExt (vbEnd exExt ⟨0, true⟩ [.call exTimeGood]) (.custom exCustom)).1.errors ≠ 0 := by decide +kernel
+-- the literal loop of `times` and the shared loop agree on an unfrozen binder, and differ on a
+-- frozen one (which the method never enters)
+example : errLoop exExt (.time 0) ⟨0, true⟩ [['a'], ['x'], ['b']] = sliceLoop exExt (.time 0) ⟨0, true⟩ [['a'], ['x'], ['b']] := by
+  decide +kernel
+example : errLoop exExt (.time 0) ⟨1, true⟩ [['a']] ≠ sliceLoop exExt (.time 0) ⟨1, true⟩ [['a']] := by decide +kernel
+
+-- struct binder, multi-value destination: all values are handed over; `!` rejects; an EMPTY value
+-- list does not panic there (it does for an ordinary field)
+example : structBind noExt [⟨.multi, .unm, .many [.opq ['o']], some [['1'], [], ['2']]⟩,
+      ⟨.ptrMulti, .unm, .nil, some [['a'], ['!']]⟩, ⟨.scalar, .bool, .one (.bool true), some [['0']]⟩]
+    = (.bad, [.many [.opq ['1'], .opq [], .opq ['2']], .many [], .one (.bool true)]) := by decide +kernel
+example : structBind noExt [⟨.multi, .unm, .many [.opq ['o']], some []⟩] = (.ok, [.many []]) := by decide +kernel
+example : (structBind noExt [⟨.scalar, .unm, .one (.opq ['o']), some []⟩]).1 = .panic := by decide
 
 end C08
